@@ -52,6 +52,14 @@ def main():
             print(f"VIOLATION property={pid} replay={a.replay}")
         sys.exit(0 if ok else 1)
 
+    # stale replay files of earlier runs of this property must not be mistaken for this run's
+    import glob as _glob
+    for old_replay in _glob.glob(os.path.join(common.VERIF, "replays", f"{pid}-*.json")):
+        try:
+            os.remove(old_replay)
+        except OSError:
+            pass
+
     # ---- (1) translator + proof obligations
     tr_errors, translated = common.regen()
     props_file = f"Props/{pid}.v"
